@@ -223,10 +223,46 @@ def ceil_div_witness(ctx, a, b):
     return z3.If(r != 0, q + 1, q)
 
 
+def _array_cell(ctx, v):
+    if isinstance(v, Ref):
+        c = ctx.cell(v)
+        if isinstance(c, HList) and getattr(c, "is_array", False) and c.items is not None:
+            return c
+    return None
+
+
+def array_binop(ctx, op, a, b, inplace):
+    """numpy semantics for one-dimensional arrays of (symbolic) scalars: element-wise with scalar broadcasting; the
+    augmented form writes into the left array object itself"""
+    ca, cb = _array_cell(ctx, a), _array_cell(ctx, b)
+    n = len((ca or cb).items)
+    if ca is not None and cb is not None and len(ca.items) != len(cb.items):
+        ctx.raise_exc("ValueError", ("operands could not be broadcast together",))
+    xs = list(ca.items) if ca is not None else [a] * n
+    ys = list(cb.items) if cb is not None else [b] * n
+    res = [binop(ctx, op, x, y) for x, y in zip(xs, ys)]
+    if inplace and ca is not None:
+        ctx.wcell(a, "[]").items[:] = res
+        return a
+    r = ctx.new_list(res)
+    ctx.cell(r).is_array = True
+    return r
+
+
 def binop(ctx, op, a, b, inplace=False):
     from .interp import Unsupported
     # operator overloading on repo objects
     dn = _DUNDER.get(type(op))
+    if _array_cell(ctx, a) is not None or _array_cell(ctx, b) is not None:
+        other = b if _array_cell(ctx, a) is not None else a
+        if not (isinstance(other, Ref) and isinstance(ctx.cell(other), HObj)):
+            if isinstance(other, Ref) and _array_cell(ctx, other) is None and isinstance(ctx.cell(other), HList):
+                other_items = ctx.cell(other).items   # list operand: numpy converts it
+                if other_items is not None:
+                    tmp = ctx.new_list(list(other_items))
+                    ctx.cell(tmp).is_array = True
+                    a, b = (a, tmp) if other is b else (tmp, b)
+            return array_binop(ctx, op, a, b, inplace)
     for x, other, refl in ((a, b, False), (b, a, True)):
         if isinstance(x, Ref):
             c = ctx.cell(x)
